@@ -49,10 +49,12 @@ VARIABLES
   mrd,      \* main: what its last filtered read returned
   mgen,     \* main: the channel it is sending a report on
   apc, agen, started,
+  garbage,  \* a cursor report that nobody was waiting for has been taken for keys
+  mrdg,     \* main: its last filtered read contained such a report
   line,     \* key indices consumed by commands so far (arguments included), in order
   sched     \* history: the environment's decisions (exported for replay; not read by any action)
 
-vars == <<script, q, held, typed, rq, handoff, cq, buf, waiting, reading, gen, mpc, mnext, mrd, mgen, apc, agen, started, line, sched>>
+vars == <<script, q, held, typed, rq, handoff, cq, buf, waiting, reading, gen, mpc, mnext, mrd, mgen, apc, agen, started, garbage, mrdg, line, sched>>
 
 KeysOf(s) == SelectSeq(s, LAMBDA x : x # 0)
 NR(s) == Len(SelectSeq(s, LAMBDA x : x = 0))
@@ -71,7 +73,7 @@ Init == /\ script \in Scripts
         /\ waiting = FALSE /\ reading = FALSE /\ gen = 0
         /\ mpc = "refresh" /\ mnext = "wait" /\ mrd = <<>> /\ mgen = 0
         /\ apc = [a \in Aux |-> "idle"] /\ agen = [a \in Aux |-> 0] /\ started = 0
-        /\ line = <<>> /\ sched = <<>>
+        /\ line = <<>> /\ sched = <<>> /\ garbage = FALSE /\ mrdg = FALSE
 
 ---------------------------------------------------------------------------
 \* main goroutine: for { Refresh; WaitAvailableKeys; run command }
@@ -82,7 +84,7 @@ MRefresh == /\ mpc \in {"refresh", "acc"}
             /\ held' = held + 1
             /\ mnext' = IF mpc = "acc" THEN "returned" ELSE "wait"
             /\ mpc' = "gcp" /\ Join(rq, 0)
-            /\ UNCHANGED <<script, handoff, q, typed, cq, buf, waiting, reading, gen, mrd, mgen, apc, agen, started, line, sched>>
+            /\ UNCHANGED <<script, handoff, garbage, mrdg, q, typed, cq, buf, waiting, reading, gen, mrd, mgen, apc, agen, started, line, sched>>
 
 \* GetCursorPos, direct read served: with a report in it the query is answered (every report in the read is
 \* consumed, keys are kept); without one the keys are kept and the read is repeated
@@ -95,15 +97,18 @@ MWait == /\ mpc = "wait"
          /\ IF buf # <<>>
             THEN /\ mpc' = "run" /\ UNCHANGED <<waiting, gen, rq>>
             ELSE /\ waiting' = TRUE /\ gen' = gen + 1 /\ mpc' = "wread" /\ Join(rq, 0)
-         /\ UNCHANGED <<script, handoff, q, held, typed, cq, buf, reading, mnext, mrd, mgen, apc, agen, started, line, sched>>
+         /\ UNCHANGED <<script, handoff, garbage, mrdg, q, held, typed, cq, buf, reading, mnext, mrd, mgen, apc, agen, started, line, sched>>
 
-\* readInputFiltered returned: a report found in the read is sent on the current channel
+\* readInputFiltered returned: a report found in the read is sent on the current channel - if a query is waiting for
+\* its report (Keys.asking); otherwise the sequence is what some key sends, and the read is returned as it is
+Asking == \E a \in Aux : apc[a] \in {"check", "read", "recv"}
 MFilteredServed(d) == /\ mrd' = d /\ rq' \in Heads(Tail(rq))
-                      /\ IF NR(d) > 0
+                      /\ IF NR(d) > 0 /\ Asking
                          THEN /\ mpc' = (IF mpc = "wread" THEN "wsend" ELSE "rksend") /\ mgen' = gen
+                              /\ UNCHANGED <<garbage, mrdg>>
                          ELSE /\ mpc' = (IF mpc = "wread" THEN "wdone" ELSE "rkdone") /\ mgen' = mgen
+                              /\ mrdg' = (NR(d) > 0) /\ garbage' = (garbage \/ NR(d) > 0)
 
-\* k.cursor <- cursor: rendezvous with the first goroutine receiving on that very channel
 \* (generation 0 is the nil channel Keys starts with: nothing ever passes through it)
 MSend == /\ mpc \in {"wsend", "rksend"} /\ mgen > 0
          /\ \E i \in 1..Len(cq) :
@@ -112,13 +117,16 @@ MSend == /\ mpc \in {"wsend", "rksend"} /\ mgen > 0
               /\ apc' = [apc EXCEPT ![cq[i]] = "done"]
               /\ cq' = Without(cq, cq[i])
          /\ mpc' = IF mpc = "wsend" THEN "wdone" ELSE "rkdone"
-         /\ UNCHANGED <<script, handoff, q, held, typed, rq, buf, waiting, reading, gen, mnext, mrd, mgen, agen, started, line, sched>>
+         /\ UNCHANGED <<script, handoff, garbage, mrdg, q, held, typed, rq, buf, waiting, reading, gen, mnext, mrd, mgen, agen, started, line, sched>>
 
 MWdone == /\ mpc = "wdone"
-          /\ IF KeysOf(mrd) = <<>>
+          /\ IF KeysOf(mrd) = <<>> /\ ~mrdg
              THEN /\ mpc' = "wread" /\ Join(rq, 0) /\ UNCHANGED <<buf, waiting>>
-             ELSE /\ buf' = buf \o KeysOf(mrd) /\ waiting' = FALSE /\ mpc' = "run" /\ rq' = rq
-          /\ UNCHANGED <<script, handoff, q, held, typed, cq, reading, gen, mnext, mrd, mgen, apc, agen, started, line, sched>>
+             ELSE \* (a report taken for keys is an undefined key sequence: it is dispatched and dropped)
+                  /\ buf' = buf \o KeysOf(mrd) /\ waiting' = FALSE /\ rq' = rq
+                  /\ mpc' = IF buf \o KeysOf(mrd) = <<>> THEN "refresh" ELSE "run"
+          /\ mrdg' = FALSE
+          /\ UNCHANGED <<script, handoff, garbage, q, held, typed, cq, reading, gen, mnext, mrd, mgen, apc, agen, started, line, sched>>
 
 \* one command
 MRun == /\ mpc = "run" /\ buf # <<>>
@@ -129,22 +137,26 @@ MRun == /\ mpc = "run" /\ buf # <<>>
                   [] script[i] = "E" -> line' = line /\ mpc' = "acc" /\ reading' = reading
         \* ReadKey creates the report channel if the shell never waited for a key yet
         /\ gen' = IF script[Head(buf)] = "V" /\ gen = 0 THEN 1 ELSE gen
-        /\ UNCHANGED <<script, handoff, q, held, typed, rq, cq, waiting, mnext, mrd, mgen, apc, agen, started, sched>>
+        /\ UNCHANGED <<script, handoff, garbage, mrdg, q, held, typed, rq, cq, waiting, mnext, mrd, mgen, apc, agen, started, sched>>
 
 \* Keys.ReadKey: buffered keys first, else read
 MRk == /\ mpc = "rk"
        /\ IF buf # <<>>
           THEN /\ line' = Append(line, Head(buf)) /\ buf' = Tail(buf) /\ reading' = FALSE /\ mpc' = "refresh" /\ rq' = rq
           ELSE /\ mpc' = "rkread" /\ Join(rq, 0) /\ UNCHANGED <<line, buf, reading>>
-       /\ UNCHANGED <<script, handoff, q, held, typed, cq, waiting, gen, mnext, mrd, mgen, apc, agen, started, sched>>
+       /\ UNCHANGED <<script, handoff, garbage, mrdg, q, held, typed, cq, waiting, gen, mnext, mrd, mgen, apc, agen, started, sched>>
 
 \* ReadKey loops while Keys.buf is empty: keys that another goroutine put there in the meantime count
+\* (a report taken for keys makes ESC the argument: the command is aborted)
 MRkdone == /\ mpc = "rkdone"
            /\ LET b == buf \o KeysOf(mrd) IN
-              IF b = <<>>
+              IF b = <<>> /\ ~mrdg
               THEN /\ mpc' = "rkread" /\ Join(rq, 0) /\ UNCHANGED <<line, buf, reading>>
-              ELSE /\ line' = Append(line, Head(b)) /\ buf' = Tail(b) /\ reading' = FALSE /\ mpc' = "refresh" /\ rq' = rq
-           /\ UNCHANGED <<script, handoff, q, held, typed, cq, waiting, gen, mnext, mrd, mgen, apc, agen, started, sched>>
+              ELSE IF mrdg
+                   THEN /\ line' = line /\ buf' = b /\ reading' = FALSE /\ mpc' = "refresh" /\ rq' = rq
+                   ELSE /\ line' = Append(line, Head(b)) /\ buf' = Tail(b) /\ reading' = FALSE /\ mpc' = "refresh" /\ rq' = rq
+           /\ mrdg' = FALSE
+           /\ UNCHANGED <<script, handoff, garbage, q, held, typed, cq, waiting, gen, mnext, mrd, mgen, apc, agen, started, sched>>
 
 ---------------------------------------------------------------------------
 \* auxiliary redisplay a: GetCursorPos from another goroutine
@@ -154,7 +166,7 @@ ACheck(a) == /\ apc[a] = "check"
              /\ IF waiting \/ reading
                 THEN /\ apc' = [apc EXCEPT ![a] = "recv"] /\ agen' = [agen EXCEPT ![a] = gen] /\ cq' = Append(cq, a) /\ rq' = rq
                 ELSE /\ apc' = [apc EXCEPT ![a] = "read"] /\ Join(rq, a) /\ UNCHANGED <<agen, cq>>
-             /\ UNCHANGED <<script, handoff, q, held, typed, buf, waiting, reading, gen, mpc, mnext, mrd, mgen, started, line, sched>>
+             /\ UNCHANGED <<script, handoff, garbage, mrdg, q, held, typed, buf, waiting, reading, gen, mpc, mnext, mrd, mgen, started, line, sched>>
 
 AServed(a, d) == IF NR(d) > 0
                  THEN /\ apc' = [apc EXCEPT ![a] = "done"] /\ rq' \in Heads(Tail(rq))
@@ -168,10 +180,10 @@ Serve == /\ q # <<>> /\ rq # <<>>
               IF g = 0
               THEN IF mpc = "gcp"
                    THEN /\ MGcpServed(q) /\ buf' = buf \o KeysOf(q)
-                        /\ UNCHANGED <<mrd, mgen, apc>>
+                        /\ UNCHANGED <<mrd, mgen, apc, garbage, mrdg>>
                    ELSE /\ MFilteredServed(q) /\ UNCHANGED <<buf, apc>>
               ELSE /\ AServed(g, q) /\ buf' = buf \o KeysOf(q)
-                   /\ UNCHANGED <<mpc, mrd, mgen>>
+                   /\ UNCHANGED <<mpc, mrd, mgen, garbage, mrdg>>
          /\ handoff' = TRUE
          /\ UNCHANGED <<script, held, typed, cq, waiting, reading, gen, mnext, agen, started, line, sched>>
 
@@ -188,7 +200,7 @@ EnvType == /\ typed < Len(script)
            /\ q' = Append(q, typed + 1) /\ typed' = typed + 1
            /\ sched' = Append(sched, [a |-> "type", n |-> 0, pos |-> "none"])
            /\ handoff' = FALSE
-           /\ UNCHANGED <<script, held, rq, cq, buf, waiting, reading, gen, mpc, mnext, mrd, mgen, apc, agen, started, line>>
+           /\ UNCHANGED <<script, garbage, mrdg, held, rq, cq, buf, waiting, reading, gen, mpc, mnext, mrd, mgen, apc, agen, started, line>>
 
 \* answer n held queries in one write, possibly with the next key before or after them
 EnvReply(n, pos) == /\ n \in 1..held
@@ -201,7 +213,7 @@ EnvReply(n, pos) == /\ n \in 1..held
                     /\ typed' = IF pos = "none" THEN typed ELSE typed + 1
                     /\ sched' = Append(sched, [a |-> "reply", n |-> n, pos |-> pos])
                     /\ handoff' = FALSE
-                    /\ UNCHANGED <<script, rq, cq, buf, waiting, reading, gen, mpc, mnext, mrd, mgen, apc, agen, started, line>>
+                    /\ UNCHANGED <<script, garbage, mrdg, rq, cq, buf, waiting, reading, gen, mpc, mnext, mrd, mgen, apc, agen, started, line>>
 
 \* a resize or an application Printf starts a redisplay in another goroutine: it writes its query first
 EnvAux == /\ started < NAux /\ mpc # "returned"
@@ -211,7 +223,7 @@ EnvAux == /\ started < NAux /\ mpc # "returned"
           /\ held' = held + 1
           /\ sched' = Append(sched, [a |-> "aux", n |-> 0, pos |-> "none"])
           /\ handoff' = FALSE
-          /\ UNCHANGED <<script, q, typed, rq, cq, buf, waiting, reading, gen, mpc, mnext, mrd, mgen, agen, line>>
+          /\ UNCHANGED <<script, garbage, mrdg, q, typed, rq, cq, buf, waiting, reading, gen, mpc, mnext, mrd, mgen, agen, line>>
 
 Env == Quiescent /\ (EnvType \/ EnvAux \/ \E n \in 1..3 : \E pos \in {"none", "after", "before"} : EnvReply(n, pos))
 
@@ -230,7 +242,7 @@ Stuck == /\ Quiescent /\ held = 0 /\ q = <<>>
             \/ \E a \in 1..started : apc[a] # "done"
             \/ typed = Len(script) /\ mpc # "returned"
 NeverStuck == ~Stuck
-RightLine == mpc = "returned" => line = Expected
+RightLine == mpc = "returned" => line = Expected /\ ~garbage
 \* keys are never reordered or lost on the way to the commands
 LinePrefix == \A i \in 1..Len(line) : line[i] = i
 
